@@ -87,3 +87,34 @@ func ForwardLoad(load ssa.Value) ([]ssa.Value, bool) {
 	}
 	return []ssa.Value{best.Val}, true
 }
+
+// StoresToFieldDeep is StoresToField that also follows the object into the
+// module functions it is handed to: when fn passes base (a pointer) to a
+// callee, the stores the callee makes through the matching parameter count.
+func (p *Prog) StoresToFieldDeep(fn *ssa.Function, base ssa.Value, field string, depth int) []*ssa.Store {
+	out := StoresToField(fn, base, field)
+	if depth == 0 {
+		return out
+	}
+	for _, f := range WithAnon(fn) {
+		EachInstr(f, func(in ssa.Instruction) {
+			call, ok := in.(*ssa.Call)
+			if !ok {
+				return
+			}
+			callee := call.Call.StaticCallee()
+			if callee == nil || callee.Blocks == nil || !InModule(callee) {
+				return
+			}
+			for i, a := range call.Call.Args {
+				if i >= len(callee.Params) {
+					break
+				}
+				if SameValue(a, base) || Resolve(a) == Resolve(base) {
+					out = append(out, p.StoresToFieldDeep(callee, callee.Params[i], field, depth-1)...)
+				}
+			}
+		})
+	}
+	return out
+}
